@@ -472,7 +472,7 @@ for (nm, what) in [("entity_scoped_only", "no type-wide removal reactor"), ("wit
                           "one poll reacts to EVERY reported removal (entity-scoped removal reactors, then the type-wide removal list) in report order, "
                           "nothing for unreported entities; a second poll reacts to nothing (exactly once)"))
 
-OBLIGATIONS.append(k2("token.every_member", _k2h("react::reaction_trigger", "token_names_every_bundle_member"), ["C06", "C16"],
+OBLIGATIONS.append(k2("token.every_member", _k2h("react::reaction_trigger", "token_names_every_bundle_member"), ["C06", "C16", "C15"],
                       ["RevokeToken::new_from", "get_reactor_types", "ReactionTriggerBundle for tuples", "ReactionTrigger::reactor_type"],
                       ["src/react/reaction_trigger.rs", "src/react/reaction_triggers_impl.rs", "src/react/utils.rs"],
                       "nested bundle of 5 members with one trigger named three times; reactor index < 50; the empty bundle",
@@ -656,6 +656,16 @@ OBLIGATIONS.append(_runner("runner.nested_inline", "runner_nested_inline", ["C09
                            "per-command flush, E1); root call",
                            "B runs in-line, exactly once, before A's run continues; both callbacks are back, counter reset, nothing "
                            "postponed (two real runner levels through the real SystemCommand::apply)", ("thorough",), witness=_W_DEPTH))
+# runner.replay_nested_postpones_* (a replayed run postponing into the live buffer): written, exceed 14 GB (VecDeque::append of two
+# non-empty deques); the conservation they target is decided at the queue level by cmdqueue.cold_start / cmdqueue.fifo.
+OBLIGATIONS.append(_runner(
+    "runner.poll_reaction", "runner_poll_reaction_for_same_system", ["C02", "C08", "C09"],
+    "root call for an idle system A; the runner's FIRST poll schedules (and, as the real poll's flush does, applies) one reaction for A itself",
+    "the polled reaction and the applied command each run A exactly once, each with its own setup and cleanup; quiescent afterwards",
+    witness=[["runner", "poll_same_system"]]))
+OBLIGATIONS[-1]["stubs"] = [x for x in OBLIGATIONS[-1]["stubs"] if not x.startswith("schedule_removal_and_despawn_reactors")] + [
+    "schedule_removal_and_despawn_reactors -> stub_poll_schedules_reaction: the first poll applies one reaction for the polled system "
+    "through the real runner (nested call), later polls do nothing"]
 OBLIGATIONS.append(_runner("runner.witness", "runner_step_witness", ["C02", "C09", "C11"], "-", "vacuity twin of the runner step family",
                            expect="fail"))
 
@@ -739,7 +749,7 @@ _QUICK_ONLY_FOR = {
     "desp.witness": ["C12"], "ent.witness": ["C12"], "bundle.reactor_types": ["C06", "C16"],
     "rc.broadcast_0_2": ["C01", "C05"], "rc.broadcast_2_1": ["C01", "C05", "C03"],
     # runner steps / command application / setup-cleanup pairs (measured 25-150 s each)
-    "runner.replay_1_nested": ["C09"], "runner.replay_2_root": ["C02", "C11", "C05"], "runner.replay_3_root": ["C12"],
+    "runner.replay_1_nested": ["C09"], "runner.replay_2_root": ["C02", "C11", "C05"], "runner.replay_3_root": ["C12"], "runner.poll_reaction": ["C08"],
     "runner.missing_root": ["C02", "C18"], "runner.entity_without_system": ["C11", "C05"],
     "runner.busy_nested": ["C02", "C09", "C12"], "runner.plain_run": ["C02", "C13", "C04", "C09"], "runner.witness": ["C02", "C09"],
     "cmd.apply_system_command": ["C02"], "cmd.apply_event_command": ["C05", "C12"], "cmd.apply_reaction_resource": ["C02"],
@@ -747,7 +757,7 @@ _QUICK_ONLY_FOR = {
     "cmd.apply_reaction_broadcast": ["C05", "C18"],
     "cmd.pair_broadcast_event": ["C05"], "cmd.pair_system_event": ["C04"], "cmd.pair_despawn_reaction": ["C07"],
     "rc.register_broadcast_2_1": ["C01"], "rc.register_mutation_1_1_1": ["C15"], "rc.register_despawn_by_entity": ["C08"],
-    "register.two_triggers": ["C15"], "register.empty_bundle": ["C15"],
+    "register.two_triggers": ["C15"], "register.empty_bundle": ["C15"], "token.every_member": ["C06", "C15"],
 }
 
 
